@@ -81,6 +81,14 @@ def siteOfFlow (fl : List (String × String)) : Option BufSite :=
   else if fl.lookup "init-root-scope" = some "package" ∨ fl.lookup "root-scope" = some "package" then some .pooled
   else none
 
+/-- the same record for `conf.buildStructFieldsInfo`: the `*fieldInfo` it returns is built by THIS call (a composite literal
+assigned to a local, the only thing ever returned) - `addOrMergeFields` / `mergeFields` then write into objects of the same
+call only, and the info is a pure function of the type (`loadTreeM`).  A cached object returned early (seeded C17-10) or
+package-level state gives `false`. -/
+def infoFreshOfFlow (fl : List (String × String)) : Bool :=
+  fl.lookup "decl" = some "assign" && fl.lookup "root-scope" = some "local" && fl.lookup "init-root-scope" = some "fresh" &&
+    fl.lookup "other-returns" = some "0" && fl.lookup "defers" = some "0"
+
 /-! ### Part 2: what a delegating entry point forwards -/
 
 /-- one argument of a call inside a delegating function -/
